@@ -74,6 +74,8 @@ func (e *env) channel(chain int, port, ch string) (channeltypes.Channel, bool) {
 	return e.w.App(chain).IBCKeeper.ChannelKeeper.GetChannel(e.w.Ctx(chain), port, ch)
 }
 
+func channelKey(port, ch string) []byte { return host.ChannelKey(port, ch) }
+
 func ctrlPort(owner string) string { return icatypes.ControllerPortPrefix + owner }
 
 // version builds an ICS-27 metadata version string for connection index conn.
@@ -242,8 +244,11 @@ func (l labels) of(addr string) string {
 	return "other:" + addr
 }
 
-func (e *env) ledger(chain int, l labels) ledger {
-	ctx, app := e.w.Ctx(chain), e.w.App(chain)
+func (e *env) ledger(chain int, l labels) ledger { return e.ledgerAt(e.w.Ctx(chain), chain, l) }
+
+// ledgerAt reads the ledger from an explicit (possibly cached) context of the chain.
+func (e *env) ledgerAt(ctx sdk.Context, chain int, l labels) ledger {
+	app := e.w.App(chain)
 	out := ledger{}
 	module := map[string]bool{}
 	app.BankKeeper.IterateAllBalances(ctx, func(a sdk.AccAddress, c sdk.Coin) bool {
